@@ -90,6 +90,11 @@ def _proj_fields(pl):
     return out
 
 
+def _is_closure_value(body, l):
+    ds = [d for d in body.defs().get(l, []) if d[0] == "stmt" and not d[3]["pl"]["p"]]
+    return len(ds) == 1 and ds[0][3]["rv"]["k"] == "aggregate" and ds[0][3]["rv"].get("ak") == "closure"
+
+
 def origins(body, x, depth=24, transparent=TRANSPARENT, _seen=None):
     """Origins of an operand (dict with k copy/move/const) or place (dict with l,p)."""
     if _seen is None:
@@ -162,6 +167,11 @@ def origins(body, x, depth=24, transparent=TRANSPARENT, _seen=None):
                     for o in origins(body, op0, depth - 1, transparent, _seen):
                         res.append(Origin(o.kind, o.name, o.site, o.path + tuple(rest), o.body, o.extra))
             elif k in ("ref", "rawptr"):
+                if rest and not rv["pl"]["p"] and _is_closure_value(body, rv["pl"]["l"]):
+                    # `(*r).capture` with r = &closure (the body of a directly called local closure, inlined): the captured operand
+                    sub = {"l": rv["pl"]["l"], "p": [{"f": int(r) if r.isdigit() else -1, "n": "" if r.isdigit() else r} for r in rest]}
+                    res += origins(body, sub, depth - 1, transparent, _seen)
+                    continue
                 for o in origins(body, rv["pl"], depth - 1, transparent, _seen):
                     res.append(Origin(o.kind, o.name, o.site, o.path + tuple(rest), o.body, o.extra))
             elif k == "cast":
